@@ -20,6 +20,7 @@ CONSTANTS
   Names = {%s}
   MaxEntries = %d
   MaxArgs = %d
+  KeyMode = "real"
 INVARIANT DesignOK
 CHECK_DEADLOCK FALSE
 """
@@ -28,6 +29,7 @@ CONSTANTS
   Names = {%s}
   MaxEntries = %d
   MaxArgs = 1
+  KeyMode = "real"
   OutFile = "%s"
 CHECK_DEADLOCK FALSE
 """
@@ -36,6 +38,7 @@ CONSTANTS
   Names = {%s}
   MaxEntries = 3
   MaxArgs = 3
+  KeyMode = "real"
   TraceFile = "%s"
   OutFile = "%s"
 INVARIANT Flush
@@ -96,7 +99,7 @@ def materialise(t, args, sid, rng=None):
     for a in args:
         p = "/".join(a["path"])
         if a["abs"] == "1":
-            s = "{ROOT}/" + ("wl" if p and rng is not None and rng.random() < 0.15 else "w") + ("/" + p if p else "")
+            s = "{ROOT}/" + ("wl" if p and a.get("via") == "l" else "w") + ("/" + p if p else "")
             # redundant spellings of an absolute path: "." and ".." elements, doubled and trailing separators
             if rng is not None and a["dots"] != "1":
                 isdir = KIND_IS_DIR(a["path"])
@@ -105,7 +108,7 @@ def materialise(t, args, sid, rng=None):
         else:
             # "/w" stands for the tree, "/wl" for a symbolic link to it that lies next to it: some relative and
             # absolute arguments reach their target through the link (another spelling of the same files)
-            via = "wl" if p and rng is not None and rng.random() < 0.2 else "w"      # (not the link itself: p is not empty)
+            via = "wl" if p and a.get("via") == "l" else "w"      # (not the link itself: p is not empty)
             s = posixpath.relpath("/%s/%s" % (via, p) if p else "/" + via, "/w/" + "/".join(cwd) if cwd else "/w")
             if rng is not None and KIND_IS_DIR(a["path"]) and a["dots"] != "1":
                 s = rng.choice([s, s, s, "./" + s, s + "/", s + "/."])
@@ -155,7 +158,8 @@ def run(ctx):
     alphabets = ALPHABETS[:1] if quick else ALPHABETS
     per = 420 if quick else 4000
     for ai, names in enumerate(alphabets):
-        r = ctx.tlc("Discover", CFG % (q(names), 2, 2), "mc-discover-%d" % ai, workers=NCPU, timeout=3000)
+        # (quick: the design check leaves out the last name of the alphabet - 2.1 M pairs with it, measured)
+        r = ctx.tlc("Discover", CFG % (q(names[:-1] if quick else names), 2, 2), "mc-discover-%d" % ai, workers=NCPU, timeout=3000)
         states += r["distinct"]
         trans += r["states"]
         out = ctx.path("vec", "trees-%d.ndjson" % ai)
@@ -179,6 +183,8 @@ def run(ctx):
                 args.append(dict(args[0]))                     # repeated argument
             if ctx.rng.random() < 0.3:
                 args.append(dict(args[0], abs="1" if args[0]["abs"] == "0" else "0"))   # same target, other form
+            if args[0]["path"] and ctx.rng.random() < 0.3:
+                args.append(dict(args[0], via="l" if args[0].get("via") == "w" else "w"))   # same target, through / not through the link
             scs.append(materialise(t, args, "c15-%d-%d" % (ai, k), ctx.rng))
         nscen += len(scs)
         recs = fr.run_cli(ctx, scs, "c15-%d" % ai)
